@@ -156,6 +156,10 @@ class World:
             space = BoxPortfolio([self.A, self.B], low=0.0, high=float(N_ALLOC), as_weights=False)
         else:
             space = BoxPortfolio([self.A, self.B], low=0.0, high=1.0)
+        if cfg.get("reuse_transmitter"):
+            # the same Transmitter served another environment first, configured with a different latency
+            other = 0.0 if cfg["lat"] else float(min(b - a for a, b in zip(self.grid, self.grid[1:])) * tick) / 2.0
+            TradingEnv(action_space=BoxPortfolio([self.A, self.B], low=0.0, high=1.0), transmitter=tr, latency=other)
         feats = (extra_features(self) if extra_features else []) + [Rec(self.sink), RecX(self.sinkx)]
         self.env = TradingEnv(action_space=space, state=feats, transmitter=tr,
                               latency=float(cfg["lat"] * tick), steps_delay=cfg["delay"],
